@@ -133,9 +133,12 @@ type lockAnalysis struct {
 	// immediately before it.
 	visit func(fn *ssa.Function, entry lstate, in ssa.Instruction, st lstate)
 	// onExit is called at every Return with the state after deferred calls ran.
-	onExit   func(fn *ssa.Function, entry lstate, ret *ssa.Return, st lstate)
-	Contexts int
-	Funcs    map[*ssa.Function]bool
+	onExit func(fn *ssa.Function, entry lstate, ret *ssa.Return, st lstate)
+	// onJoinDiff is called when two paths reach block b holding different locksets (must-hold keeps the
+	// intersection, so a lock held on one path only would otherwise vanish silently: a leaked lock).
+	onJoinDiff func(fn *ssa.Function, entry lstate, b *ssa.BasicBlock, s1, s2 lstate)
+	Contexts   int
+	Funcs      map[*ssa.Function]bool
 }
 
 func newLockAnalysis(p *Prog) *lockAnalysis {
@@ -269,6 +272,9 @@ func (a *lockAnalysis) analyse(fn *ssa.Function, entry lstate) lstate {
 			ns := st
 			if have[s] {
 				ns = meet(in[s], st)
+				if in[s] != st && a.onJoinDiff != nil && !deferCovers(fn, in[s], st) {
+					a.onJoinDiff(fn, entry, s, in[s], st)
+				}
 			}
 			if !have[s] || ns != in[s] {
 				in[s] = ns
@@ -586,6 +592,57 @@ func runGuardedBy(p *Prog, gs *guardSpec) ([]guardedAccess, *lockAnalysis, []str
 			}
 		}
 	}
+	la.onJoinDiff = func(fn *ssa.Function, entry lstate, b *ssa.BasicBlock, s1, s2 lstate) {
+		pos := ""
+		for _, in := range b.Instrs {
+			if in.Pos().IsValid() {
+				pos = p.instrPos(in)
+				break
+			}
+		}
+		if pos == "" {
+			pos = p.pos(fn.Pos())
+		}
+		msg := fmt.Sprintf("%s|%s|paths join holding {%s} and {%s}", fnKey(fn), pos, s1, s2)
+		key := fnKey(fn) + "|" + b.String()
+		if !seenImb[key] {
+			seenImb[key] = true
+			imbalance = append(imbalance, msg)
+		}
+	}
 	la.RunAll()
 	return accs, la, imbalance
+}
+
+// deferCovers: every lock on which the two states differ is released by a deferred unlock that sits in the block of an
+// acquisition of it ("mu.Lock(); defer mu.Unlock()" inside a branch): the paths differ only until the deferred calls run.
+func deferCovers(fn *ssa.Function, s1, s2 lstate) bool {
+	ids := map[string]bool{}
+	for _, l := range append(s1.locks(), s2.locks()...) {
+		if s1.get(l) != s2.get(l) {
+			ids[l] = true
+		}
+	}
+	for id := range ids {
+		covered := false
+		for _, b := range fn.Blocks {
+			locked := false
+			for _, in := range b.Instrs {
+				switch x := in.(type) {
+				case *ssa.Call:
+					if l, mode, ok := lockOp(&x.Call); ok && l == id && mode > 0 {
+						locked = true
+					}
+				case *ssa.Defer:
+					if l, mode, ok := lockOp(&x.Call); ok && l == id && mode == -1 && locked {
+						covered = true
+					}
+				}
+			}
+		}
+		if !covered {
+			return false
+		}
+	}
+	return true
 }
